@@ -61,20 +61,26 @@ func summarise(n datamodel.Node) string {
 		if it == nil {
 			return "map!nil-iterator"
 		}
-		var ents []string
+		// a visitor may keep what the iterator hands out: keys and values
+		// are read only after the iteration is over
+		var ks, vs []datamodel.Node
 		for i := 0; !it.Done() && i < 1000; i++ {
 			k, v, err := it.Next()
 			if err != nil {
 				return "map!err:" + err.Error()
 			}
-			ks, _ := k.AsString()
-			vs := "?"
-			if l, err := v.AsLink(); err == nil {
-				vs = l.String()
+			ks, vs = append(ks, k), append(vs, v)
+		}
+		var ents []string
+		for i := range ks {
+			k, _ := ks[i].AsString()
+			v := "?"
+			if l, err := vs[i].AsLink(); err == nil {
+				v = l.String()
 			} else {
-				vs = "kind:" + v.Kind().String()
+				v = "kind:" + vs[i].Kind().String()
 			}
-			ents = append(ents, ks+"="+vs)
+			ents = append(ents, k+"="+v)
 		}
 		sort.Strings(ents)
 		return "map:{" + strings.Join(ents, ",") + "}"
